@@ -447,3 +447,61 @@ Proof.
 Qed.
 
 End Correct.
+
+(* ------------------------------------------------------------------ the theorem, closed *)
+(* [T1] for every configuration with the repaired code, all messages (bytes 0..255, segments
+   < 2^32), both pointers in one message or in two, every fuel, every pair of remaining
+   traversal budgets: if Equal answers (b, nil) and the pointers denote va and vb, then b is the
+   documented equality of va and vb. *)
+Theorem equal_m_correct : forall c fx x fuel st p q b st' va vb,
+  cfg_strict c = true -> all_fixed fx -> msg_ok (segs_of x SA) -> msg_ok (segs_of x SB) ->
+  equal_m fuel c fx x st p q = (EOk b, st') ->
+  den true (segs_of x SA) 0 (caps_of x SA) p va ->
+  den true (segs_of x SB) (if ec_same x then 0 else 1) (caps_of x SB) q vb ->
+  b = value_eq va vb.
+Proof. intros c fx x fuel st p q b st' va vb Hs Hf Ha Hb. apply (equal_m_den c fx x Hs Hf Ha Hb fuel). Qed.
+
+(* layout independence: pointers that denote equal values -- whatever the segments, offsets,
+   far pointers, section sizes of the two encodings -- are Equal whenever Equal answers *)
+Theorem equal_layout_independent : forall c fx x fuel st p q b st' va vb,
+  cfg_strict c = true -> all_fixed fx -> msg_ok (segs_of x SA) -> msg_ok (segs_of x SB) ->
+  equal_m fuel c fx x st p q = (EOk b, st') ->
+  den true (segs_of x SA) 0 (caps_of x SA) p va ->
+  den true (segs_of x SB) (if ec_same x then 0 else 1) (caps_of x SB) q vb ->
+  value_eq va vb = true -> b = true.
+Proof. intros. rewrite <- H6. eapply equal_m_correct; eassumption. Qed.
+
+Lemma same_ctx x : ec_same x = true ->
+  segs_of x SB = segs_of x SA /\ caps_of x SB = caps_of x SA.
+Proof. intros H. unfold segs_of, caps_of, on_a. rewrite H. split; reflexivity. Qed.
+
+(* reflexive: a pointer is Equal to itself *)
+Theorem equal_refl : forall c fx x fuel st p b st' v,
+  cfg_strict c = true -> all_fixed fx -> msg_ok (segs_of x SA) -> ec_same x = true ->
+  equal_m fuel c fx x st p p = (EOk b, st') ->
+  den true (segs_of x SA) 0 (caps_of x SA) p v -> b = true.
+Proof.
+  intros c fx x fuel st p b st' v Hs Hf Ha Hsame H D. destruct (same_ctx x Hsame) as [E1 E2].
+  rewrite <- (value_eq_refl v). eapply equal_m_correct; try eassumption.
+  - rewrite E1. assumption.
+  - rewrite E1, E2, Hsame. assumption.
+Qed.
+
+(* symmetric: swapping the arguments gives the same answer (both pointers in one message) *)
+Theorem equal_sym : forall c fx x fuel st1 st2 p q b1 b2 st1' st2' va vb,
+  cfg_strict c = true -> all_fixed fx -> msg_ok (segs_of x SA) -> ec_same x = true ->
+  equal_m fuel c fx x st1 p q = (EOk b1, st1') ->
+  equal_m fuel c fx x st2 q p = (EOk b2, st2') ->
+  den true (segs_of x SA) 0 (caps_of x SA) p va ->
+  den true (segs_of x SA) 0 (caps_of x SA) q vb -> b1 = b2.
+Proof.
+  intros c fx x fuel st1 st2 p q b1 b2 st1' st2' va vb Hs Hf Ha Hsame H1 H2 Dp Dq.
+  destruct (same_ctx x Hsame) as [E1 E2].
+  assert (Hb : msg_ok (segs_of x SB)) by (rewrite E1; assumption).
+  rewrite (equal_m_correct c fx x fuel st1 p q b1 st1' va vb Hs Hf Ha Hb H1 Dp) by (rewrite E1, E2, Hsame; assumption).
+  rewrite (equal_m_correct c fx x fuel st2 q p b2 st2' vb va Hs Hf Ha Hb H2 Dq) by (rewrite E1, E2, Hsame; assumption).
+  apply value_eq_sym.
+Qed.
+
+(* symmetric across two messages: exchanging the messages and the arguments *)
+Definition swap_ctx (x : ectx) : ectx := mkEC (ec_segs_b x) (ec_caps_b x) (ec_segs_a x) (ec_caps_a x) (ec_same x).
